@@ -345,6 +345,7 @@ func CheckMatching(p *Plan, o *Observed) ([]Issue, map[*Leaf]int) {
 		if i >= 0 {
 			return
 		}
+		chosen[l] = -2 // none of the acceptable alternatives was realised (-1 = outcome left open)
 		prop := "C04"
 		if l.Explicit != "" {
 			prop = "C06"
